@@ -42,10 +42,13 @@ AtomsImm == AtomsOrder \cup
              CallN(<<109, 97, 120>>, NOp("Tuple", <<RX, C2>>))}                       \* max(x, 2): a builtin
 AtomsEntry == {C1, CS, CT, NEmpty, NOp("Tuple", <<C1, CS>>), NConst(VFloat(<<16376, 0, 0, 0>>), <<49, 46, 53>>), RX,
                Bin("Assign", WX, C2), Bin("Div", C1, C0), NLeaf("Read", NU), CallN(NFf, C2), CallN(NH, C1)}
-Atoms == CASE Family = "order" -> AtomsOrder [] Family = "imm" -> AtomsImm [] OTHER -> AtomsEntry
-Combs == IF Family = "entry" THEN {"Add", "Chain", "Tuple", "Eq"} ELSE {"Add", "And", "Or", "Eq", "Tuple", "Chain"}
+\* "deep": fewer atoms and combinators, one more level (programs of four atoms)
+AtomsDeep == {Bin("Assign", WX, C1), Bin("AddAssign", WX, C1), RX, CallN(NFf, C2), CallN(NH, C1)}
+Atoms == CASE Family = "order" -> AtomsOrder [] Family = "imm" -> AtomsImm [] Family = "deep" -> AtomsDeep [] OTHER -> AtomsEntry
+Combs == CASE Family = "entry" -> {"Add", "Chain", "Tuple", "Eq"} [] Family = "deep" -> {"Add", "And", "Tuple", "Chain"}
+           [] OTHER -> {"Add", "And", "Or", "Eq", "Tuple", "Chain"}
 Wraps == IF Family = "entry" THEN {} ELSE {NFf, NH}
-AssignWraps == CASE Family = "imm" -> AssignNodes [] Family = "order" -> {"Assign", "AddAssign", "OrAssign"} [] OTHER -> {"Assign"}
+AssignWraps == CASE Family = "imm" -> AssignNodes [] Family \in {"order", "deep"} -> {"Assign", "AddAssign", "OrAssign"} [] OTHER -> {"Assign"}
 
 \* flatten nested sequences of the same kind the way the grammar does (a, b, c is ONE tuple)
 Seq2(o, l, r) == NOp(o, (IF l.o = o THEN l.k ELSE <<l>>) \o <<r>>)
@@ -85,7 +88,7 @@ EmitImm == \A c \in Ctxs :
              /\ (HasMutableStore(c) => PrintT(ToJson(EvalCase("imm", c, "mut", "tree", "value", Core("mut", p, St(c, <<>>))))))
 EmitEntry == \A c \in Ctxs : \A level \in {"string", "tree"} : \A ek \in EntryKinds : \A mode \in EntryModes :
                PrintT(ToJson(EvalCase("entry", c, mode, level, ek, Core(mode, p, St(c, <<>>)))))
-Emit == CASE Family = "order" -> EmitOrder [] Family = "imm" -> EmitImm [] OTHER -> EmitEntry
+Emit == CASE Family \in {"order", "deep"} -> EmitOrder [] Family = "imm" -> EmitImm [] OTHER -> EmitEntry
 
 (***************************************************************************)
 (* Theorems of the specification, checked on every program.                *)
@@ -123,6 +126,6 @@ SpecTheorems ==
   /\ WFAst(p)
   /\ Classify(Toks) = [class |-> "WF", tree |-> p]              \* the source text of the case denotes this program
   /\ (Family = "imm" => ImmIsProjection)
-  /\ (Family = "order" => FirstErrorWins)
+  /\ (Family \in {"order", "deep"} => FirstErrorWins)
   /\ (Family = "entry" => Idempotent)
 =============================================================================
